@@ -52,7 +52,7 @@ def check_vector(v):
     h = int(hashlib.sha1(json.dumps(prog, sort_keys=True).encode()).hexdigest(), 16)
     nf = v.get("nformats", 3)
     fmts = list(dict.fromkeys(FORMATS[(h + 2 * i) % len(FORMATS)] for i in range(nf)))
-    has_replace = any(p["op"] == "replace" for p in prog)
+    has_replace = any(p["op"] in ("replace", "assign") for p in prog)
     has_concat = any(p["op"] == "concat" for p in prog)
     bad, n, nt = [], 0, []
     for fmt in fmts:
@@ -97,7 +97,7 @@ def check_vector(v):
 def run(ctx):
     quick = ctx.tier == "quick"
     invs = ["Equivalent", "Aligned", "PassThrough", "ContigSound", "Emit"]
-    consts = {"NRec": tk.NREC, "Fields": ["f1", "f2"], "MaxPool": 3, "AsBuilt": False, "Sels": SELS, "Ops": ["len", "tolist", "write", "get", "replace", "index", "concat"]}
+    consts = {"NRec": tk.NREC, "Fields": ["f1", "f2"], "MaxPool": 3, "AsBuilt": False, "Sels": SELS, "Ops": ["len", "tolist", "write", "get", "replace", "assign", "index", "concat"]}
     vectors = []
     for chunked in (False, True):
         depth = (4 if not chunked else 3) if quick else (5 if not chunked else 4)
@@ -111,7 +111,7 @@ def run(ctx):
     # selection must not disturb what its parent, or a table derived from it, writes later)
     res = ctx.tlc("MC_C05", tag="MC_C04_deep", spec="Spec",
                   constants=dict(consts, MaxDepth=5 if quick else 6, Chunked=False, Sels=["tail", "step"],
-                                 Ops=["write", "get", "replace", "index"]), invariants=invs, properties=["Frame"])
+                                 Ops=["write", "get", "replace", "assign", "index"]), invariants=invs, properties=["Frame"])
     deep = [v for v in res.vectors if v["obs"].get("kind") == "bytes" and len(v["prog"]) >= 5
             and sum(1 for p in v["prog"] if p["op"] == "write") >= 2]
     vectors += deep
